@@ -280,6 +280,11 @@ class C01:
             if spread is None:
                 raise AnalysisError(f"unrecognised ** spread: {show(val)[:100]}", site=site)
             src, excluded = spread
+            # `d = dict(super().to_aoef(obj)); del d["k"]` removes k from what is spread
+            for ev_ in summ.of("delete"):
+                dt = ev_.term
+                if dt[0] == "sub" and dt[1] == val and dt[2][0] == "const":
+                    excluded = set(excluded) | {dt[2][1]}
             bt, bk = super_result(src)
             for k, v in bk.items():
                 if k in excluded or k in out:
